@@ -53,11 +53,11 @@ _IDENT = ['top1', 'tie', 'cmident', 'pdslice', 'cmreject']
 MIN_HITS = {
     'quick': dict({f'mon:{f}': 60 for f in FAMILY.values()}, **{f'mon:{f}': 40 for f in _IDENT},
                   **{'edge:tie': 100, 'edge:fully-masked': 60, 'edge:k<1': 40, 'edge:k>=C': 40, 'edge:logits-mask': 40, 'edge:logits-mask-finite-bias': 40, 'pdslice:overflowing-example': 5,
-                     'edge:extreme': 60, 'edge:per-position': 40, 'edge:masked-token': 100, 'hit:numpy-inputs': 800}),
+                     'edge:extreme': 60, 'edge:per-position': 40, 'edge:masked-token': 100, 'hit:numpy-inputs': 800, 'hit:x64-metric': 150, 'hit:half-precision-scores': 40}),
     'thorough': dict({f'mon:{f}': 600 for f in FAMILY.values()}, **{f'mon:{f}': 400 for f in _IDENT},
                      **{'edge:tie': 1000, 'edge:fully-masked': 600, 'edge:k<1': 400, 'edge:k>=C': 400,
                         'edge:logits-mask': 400, 'edge:logits-mask-finite-bias': 400, 'pdslice:overflowing-example': 50, 'edge:extreme': 600, 'edge:per-position': 400,
-                        'edge:masked-token': 1000, 'hit:numpy-inputs': 15000}),
+                        'edge:masked-token': 1000, 'hit:numpy-inputs': 15000, 'hit:x64-metric': 3000, 'hit:half-precision-scores': 800}),
 }
 
 
@@ -383,6 +383,109 @@ def count_edges(ctx, flags):
     ctx.count('edge:' + f)
 
 
+def run_half(ctx, jax, jnp, M, rng, case_no):
+  """Half-precision scores (float16 / bfloat16): statistics must not be accumulated in the scores' dtype -- long sequences whose
+  summed loss exceeds the float16 range (65504) and the bfloat16 integer range (256), judged against the float64 definition
+  applied to the half-rounded scores with a half-precision tolerance per token."""
+  dt, eps = [(jnp.float16, 2.0**-10), (jnp.bfloat16, 2.0**-7)][case_no % 2]
+  L = int([8192, 9001, 12000, 300][case_no % 4]) if case_no % 8 < 6 else int(rng.randint(2, 40))
+  C = int(rng.randint(2, 5))
+  y = rng.randint(0, C, size=L).astype(np.int32)
+  sc = rng.randn(L, C)
+  wrong = (y + 1) % C
+  sc[np.arange(L), wrong] += rng.uniform(8.0, 12.0, size=L)        # confidently wrong: loss ~ 10 per token
+  p = jnp.asarray(sc).astype(dt)
+  sc_r = np.asarray(p.astype(jnp.float32), np.float64)               # the values the metric actually receives
+  per = np.array([r_xent(sc_r[r], int(y[r])) for r in range(L)])
+  tol_tok = 8 * eps * (np.abs(per) + np.max(np.abs(sc_r), axis=1) + 1.0)
+  wit = {'scores_dtype': str(np.dtype(dt)) if dt is jnp.float16 else 'bfloat16', 'tokens': L, 'classes': C, 'sum_of_token_losses': float(per.sum())}
+  for name, m, want_a, want_w in (
+      ('SequenceTokenCrossEntropyLoss', M.SequenceTokenCrossEntropyLoss(masked_target_values=()), per.sum(), float(L)),
+      ('SequenceCrossEntropyLoss', M.SequenceCrossEntropyLoss(masked_target_values=()), per.sum(), 1.0),
+      ('SequenceTokenCrossEntropyLoss[per_position]', M.SequenceTokenCrossEntropyLoss(masked_target_values=(), per_position=True), per, np.ones(L)),
+  ):
+    r = ctx.call(f'{name.split("[")[0]}.evaluate_example', m.evaluate_example, {'y': jnp.asarray(y)}, p, witness={**wit, 'metric': name})
+    if r.ok:
+      _, f = fields(r.value)
+      tol = tol_tok if np.ndim(want_a) else tol_tok.sum()
+      ok = (np.shape(f['accum']) == np.shape(want_a) and not np.any(np.isnan(f['accum'])) and bool(np.all(np.abs(f['accum'] - want_a) <= tol))
+            and bool(np.all(f['weight'] == want_w)))
+      ctx.count('hit:half-precision-scores')
+      ctx.check(ok, 'half/sequence-loss-differs-from-definition',
+                f'{name} on {wit["scores_dtype"]} scores: accum {np.asarray(f["accum"]).ravel()[:3]} weight {np.asarray(f["weight"]).ravel()[:3]}; '
+                f'the definition on the same (rounded) scores gives {np.ravel(want_a)[:3]} / {np.ravel(want_w)[:3]}',
+                {**wit, 'metric': name, 'tolerance': float(np.max(tol))})
+  # classification: many examples merged one by one (the merged statistic must not saturate either)
+  n = 700 if case_no % 8 < 6 else 12
+  st, tot = None, 0.0
+  for j in range(n):
+    row = jnp.asarray(sc[j % L]).astype(dt)
+    t = int(y[j % L])
+    r = ctx.call('CrossEntropyLoss.evaluate_example', M.CrossEntropyLoss().evaluate_example, {'y': jnp.asarray(np.int32(t))}, row,
+                 witness={**wit, 'metric': 'CrossEntropyLoss', 'example': j})
+    if not r.ok:
+      st = None
+      break
+    st = r.value if st is None else st.merge(r.value)
+    tot += per[j % L]
+  if st is not None:
+    _, f = fields(st)
+    tol = 8 * eps * (tot + 13.0 * n)
+    ctx.check(abs(float(f['accum']) - tot) <= tol and float(f['weight']) == n, 'half/merged-loss-differs-from-definition',
+              f'CrossEntropyLoss merged over {n} {wit["scores_dtype"]} examples: accum {float(f["accum"])!r} weight {float(f["weight"])!r}; '
+              f'definition {tot!r} / {n}', {**wit, 'metric': 'CrossEntropyLoss', 'examples': n})
+  ctx.case_done(('half', case_no, L, C), sample=wit, klass=['half', 'half:' + wit['scores_dtype']])
+
+
+def run_x64(ctx, jax, jnp, M):
+  """64-bit mode (process started with JAX_ENABLE_X64=1): the cross-entropy metrics on float64 scores, judged at float64
+  accuracy -- losses far below float32 resolution (confident predictions) and score magnitudes beyond the float32 range."""
+  def xe(scores, t):
+    return r_xent(np.asarray(scores, np.float64), int(t))
+
+  def tight(got, ref):
+    got, ref = np.asarray(got, np.float64), np.asarray(ref, np.float64)
+    return got.shape == ref.shape and not np.any(np.isnan(got)) and bool(np.all(np.abs(got - ref) <= 1e-11 * np.abs(ref) + 1e-15))
+
+  for cid, rng in ctx.cases('x64', 240 if ctx.quick else 4000):
+    i = int(cid.split('/')[1])
+    C = int(rng.randint(2, 9))
+    L = int(rng.randint(1, 6))
+    kind = ['random', 'confident', 'huge', 'random-offset'][i % 4]
+    seq = (i // 4) % 3          # 0: CrossEntropyLoss, 1: SequenceTokenCrossEntropyLoss, 2: SequenceCrossEntropyLoss
+    rows = 1 if seq == 0 else L
+    y = rng.randint(0, C, size=rows)
+    sc = rng.randn(rows, C) * [1.0, 30.0][rng.randint(2)]
+    if kind == 'confident':
+      sc = rng.randn(rows, C)
+      sc[np.arange(rows), y] += rng.uniform(22.0, 34.0, size=rows)      # loss between 1e-15 and 1e-9: zero in float32
+    elif kind == 'huge':
+      sc = sc * 1e40                                                     # finite in float64, inf in float32
+    elif kind == 'random-offset':
+      sc = sc + 1e6 * (1 + rng.rand())
+    per = np.array([xe(sc[r], y[r]) for r in range(rows)])
+    wit = {'jax_enable_x64': True, 'metric': ['CrossEntropyLoss', 'SequenceTokenCrossEntropyLoss', 'SequenceCrossEntropyLoss'][seq],
+           'scores_kind': kind, 'scores': sc, 'target': y, 'per_token_reference': per}
+    if seq == 0:
+      m, ex, p = M.CrossEntropyLoss(), {'y': jnp.asarray(np.int32(y[0]))}, jnp.asarray(sc[0])
+      want = (per[0], 1.0)
+    else:
+      m = (M.SequenceTokenCrossEntropyLoss if seq == 1 else M.SequenceCrossEntropyLoss)(masked_target_values=())
+      ex, p = {'y': jnp.asarray(y.astype(np.int32))}, jnp.asarray(sc)
+      want = (per.sum(), float(rows)) if seq == 1 else (per.sum(), 1.0)
+    if p.dtype != jnp.float64:
+      raise core.HarnessError('x64 child: scores are not float64')
+    r = ctx.call(f"{wit['metric']}.evaluate_example", m.evaluate_example, ex, p, witness=wit)
+    if r.ok:
+      _, f = fields(r.value)
+      ctx.count('hit:x64-metric')
+      ctx.check(tight(f['accum'], want[0]) and tight(f['weight'], want[1]), 'x64/cross-entropy-differs-at-float64-accuracy',
+                f"{wit['metric']} on float64 scores under jax_enable_x64: accum {f['accum']!r} weight {f.get('weight')!r}, the "
+                f'definition gives {want[0]!r} / {want[1]!r}', {**wit, 'got': f})
+    ctx.case_done(('x64', seq, kind, digest(sc, y)), sample={k: v for k, v in wit.items() if k != 'per_token_reference'},
+                  klass=['x64', 'x64:' + kind])
+
+
 # ========================================================================= run
 def run(ctx):
   import jax
@@ -390,6 +493,12 @@ def run(ctx):
   import fedjax
   M = fedjax.metrics
   ref_self_check()
+  if ctx.xproc_child == 'x64':
+    if not jax.config.jax_enable_x64:
+      raise core.HarnessError('x64 child started without jax_enable_x64')
+    with jax.disable_jit():
+      run_x64(ctx, jax, jnp, M)
+    return
   found = mg.discover(fedjax)
   mg.require_generators(found)
   missing_ref = [n for n in found if n not in FAMILY]
@@ -503,11 +612,20 @@ def run(ctx):
       C, _ = shapes[i % len(shapes)]
       check_confusion(ctx, M, jnp, rng, C)
 
+    # ------------------------------------------- half-precision scores, long sequences / many merges
+    for cid, rng in ctx.cases('half', 16 * scale):
+      run_half(ctx, jax, jnp, M, rng, int(cid.split('/')[1]))
+
     # --------------------------------------------------- per-domain slices
     for cid, rng in ctx.cases('pdslice', 300 * scale):
       i = int(cid.split('/')[1])
       C, L = shapes[i % len(shapes)]
       check_perdomain_multi(ctx, M, jnp, rng, C, L, plain[(i // len(shapes)) % len(plain)])
+
+  # configuration the metrics must be indifferent to: 64-bit mode with float64 scores (fresh interpreter, JAX_ENABLE_X64=1)
+  if ctx.replay_case is None or ctx.replay_case.startswith('x64/'):
+    from vmon import xproc
+    ctx.absorb(xproc.run_family(ctx, 'vmon.checks.c14', 'x64', env={'JAX_ENABLE_X64': '1'}))
 
 
 # ------------------------------------------------------------------ sub-checks
@@ -753,3 +871,8 @@ LEVEL_TEXT = ('Each built-in metric class is run on thousands of generated examp
               'Held-on-observed over sampled inputs; not a proof for all inputs.')
 LEVEL_NOTE = ('Trusts NumPy float64 arithmetic and the harness references (self-checked against every literal docstring example); '
               'single examples are evaluated under jax.disable_jit, the jitted/vmapped path is covered by C05.')
+
+
+if __name__ == '__main__':
+  from vmon import xproc as _xproc
+  _xproc.child_main(_xproc.family_handler(__name__))
